@@ -12,6 +12,11 @@
 (* unchanged (a Read that would exceed the limit fails without consuming   *)
 (* output); otherwise it returns T[produced, produced+n) and advances.     *)
 (* A zero-length read is a successful no-op, also at the limit.            *)
+(* Scribble: the CALLER overwrites a buffer it passed to an earlier Read    *)
+(* (wipes a key, reuses the array).  The buffers belong to the caller, the *)
+(* reader must not retain them (io.Reader), so this is a stuttering step   *)
+(* of the reader: the stream position and every future output depend only *)
+(* on (PRK, info, bytes delivered so far).                                 *)
 (*                                                                         *)
 (* Stream bytes are symbolic here: an output is the interval <<lo, hi>> of *)
 (* 0-based positions of T it consists of (byte p is offset p % H of block  *)
@@ -41,7 +46,11 @@ Read(n) ==
   ELSE /\ last' = [op |-> "read", n |-> n, err |-> FALSE, out |-> Slice(produced, n)]
        /\ produced' = produced + n
 
-Next == \E n \in ReadSizes : Read(n)
+\* the caller overwrites one of its own buffers: invisible to the reader
+Scribble == /\ UNCHANGED produced
+            /\ last' = [op |-> "scribble", n |-> 0, err |-> FALSE, out |-> <<>>]
+
+Next == (\E n \in ReadSizes : Read(n)) \/ Scribble
 Spec == Init /\ [][Next]_vars
 
 TypeOK == produced \in 0..Limit
@@ -52,4 +61,5 @@ Contiguous == [][(~last'.err) => /\ last'.out = Slice(produced, last'.n)
                                   /\ produced' = produced + last'.n]_vars
 FailsExactlyBeyondLimit == [][last'.err <=> last'.n > Limit - produced]_vars
 ZeroReadIsNoop == [][last'.n = 0 => (~last'.err /\ produced' = produced)]_vars
+ScribbleIsInvisible == [][last'.op = "scribble" => produced' = produced]_vars
 =============================================================================
